@@ -447,6 +447,55 @@ def multi_component_stream(rep, tier, r):
   return {'programs': n_prog, 'predicates_checked': checked, 'bad': bad}
 
 
+def uncut_group_stream(rep, tier, r):
+  """A mutually recursive group that no single member cuts (every member also recurses on itself), the @Recursive
+  annotation on ANY member (or on none): the group is applied depth+1 times simultaneously, depth being the value
+  the annotation gives, whichever member carries it."""
+  import json as _json
+  names_pool = ['Alpha', 'Beta', 'Gamma', 'Delta', 'Rho', 'Zed']
+  n_prog = 4 if tier == 'quick' else 40
+  jobs, metas = [], []
+  for _ in range(n_prog):
+    a, b = sorted(r.sample(names_pool, 2))
+    annotated = r.choice([a, b, b, None])       # mostly the member that is not alphabetically first
+    depth = r.choice([2, 3, 5, 11]) if annotated else None
+    n = 16
+    lines = ['E(x, x + 1) :- x in Range(%d);' % n, 'F(x, x + 1) :- x in Range(%d);' % n,
+             '%s(x, y) distinct :- E(x, y);' % a, '%s(x, z) distinct :- %s(x, y), E(y, z);' % (a, b),
+             '%s(x, z) distinct :- %s(x, y), F(y, z);' % (a, a), '%s(x, z) distinct :- %s(x, y), E(y, z);' % (b, a),
+             '%s(x, z) distinct :- %s(x, y), F(y, z);' % (b, b)]
+    if annotated:
+      lines.append('@Recursive(%s, %d);' % (annotated, depth))
+    r.shuffle(lines)
+    text = '@Engine("sqlite");\n' + '\n'.join(lines) + '\n'
+    jobs.append((text, [a, b]))
+    metas.append((a, b, annotated, depth, n))
+  with ProcessPoolExecutor(max_workers=4) as ex:
+    results = list(ex.map(run_real, jobs, chunksize=1))
+  checked = bad = 0
+  for (text, names), (a, b, annotated, depth, n), got in zip(jobs, metas, results):
+    d = 8 if depth is None else depth
+    e = {(x, x + 1) for x in range(n)}
+    join = lambda p, q: {(x, z) for (x, y) in p for (y2, z) in q if y == y2}
+    ra, rb = set(), set()
+    for _ in range(d + 1):
+      ra, rb = (e | join(rb, e) | join(ra, e)), (join(ra, e) | join(rb, e))
+    for nm, want in ((a, ra), (b, rb)):
+      res = got.get(nm)
+      checked += 1
+      rows = set(tuple(_json.loads(x)) for x in res[1]) if res and res[0] == 'ok' else None
+      if rows != want:
+        bad += 1
+        if bad <= 3:
+          rep.violation('uncut-group:%s' % ('default' if annotated is None else ('first' if annotated == a else 'other')), {
+              'program_text': text, 'predicate': nm, 'annotated': annotated, 'depth': depth,
+              'law': 'a recursive group is applied exactly depth+1 times, depth = the @Recursive value of the group '
+                     '(whichever member carries it) or 8',
+              'expected_rows': len(want), 'observed': [res[0], (len(rows) if rows is not None else res[1])] if res else None,
+              'how': 'props/c03.py run_real(program_text, [predicate]) (SQLite), rows compared as sets'})
+  return {'programs': n_prog, 'predicates_checked': checked, 'bad': bad}
+
+
 def preds_of(case):
   return list(SHAPES[case['shape']].members)
 
@@ -478,8 +527,9 @@ def run(tier, replay=None):
     results = list(ex.map(run_real, jobs, chunksize=2))
   found = 0
   multi = multi_component_stream(rep, tier, r) if not replay else {}
+  uncut = uncut_group_stream(rep, tier, r) if not replay else {}
   stats = {'ok': 0, 'known': 0, 'bad': 0, 'by_shape': {}, 'by_depth': {}, 'iterative_plans': 0,
-           'multi_component': multi,
+           'multi_component': multi, 'uncut_group': uncut,
            'matched': {}, 'run_s': round(time.time() - t0, 1)}
   for c, got in zip(cases, results):
     verdict, detail = judge(c, got)
